@@ -85,7 +85,7 @@ var idAtom = map[string][]string{
 	"dupAttr":    {"x509.subject: C=US, ST=WA, O=Acme, O=Two", "x509.subject: C=US, ST=WA, S=OR, O=Acme"},
 	"multiRDN":   {"x509.subject: C=US, ST=WA, O=Acme+CN=web"},
 	"hashForm":   {"x509.subject: C=US, ST=WA, O=Acme, 1.2.3.4=#04024869"},
-	"garbageDN":  {"x509.subject: this is not a DN", "x509.subject: C=US, ST=WA, O"},
+	"garbageDN":  {"x509.subject: this is not a DN", "x509.subject: C=US, ST=WA, O", "x509.subject: C=US, ST=WA, O=Acme,", "x509.subject: C=US, ST=WA, O=Acme,,CN=web", "x509.subject: C=US, ST=WA, O=Acme, CN"},
 }
 
 const regBase = "registry.acme.io"
@@ -304,12 +304,13 @@ type SelIn struct {
 }
 
 type SelObs struct {
-	Sel    string `json:"sel"`    // name atom of the selected statement or "refused"
-	Again  string `json:"again"`  // selection after deep mutation of the first returned value
-	Intact bool   `json:"intact"` // the second returned statement still equals the document's statement
-	DocOK  bool   `json:"docOK"`  // the document itself is unchanged after mutating the returned value
-	Via    string `json:"via"`    // statement applied by verifier.Verify (identified by its enforcement map), or "refused" / "n/a"
-	Panic  bool   `json:"panic"`
+	Sel     string `json:"sel"`     // name atom of the selected statement or "refused"
+	Again   string `json:"again"`   // selection after deep mutation of the first returned value
+	Intact  bool   `json:"intact"`  // the second returned statement still equals the document's statement
+	DocOK   bool   `json:"docOK"`   // the document itself is unchanged after mutating the returned value
+	Via     string `json:"via"`     // statement applied by verifier.Verify (identified by its enforcement map), or "refused" / "n/a"
+	ViaSkip string `json:"viaSkip"` // the skip check (what notation.Verify asks first): "refused" | "answered" | "n/a"
+	Panic   bool   `json:"panic"`
 }
 
 var nameBack = map[string]string{"alpha": "n1", "beta": "n2", "gamma": "n3", "delta": "n4"}
@@ -338,6 +339,9 @@ func refFor(path string, salt uint32) string {
 		return regBase + "/APP" + dg
 	case "malformedEmpty":
 		return ""
+	case "malformedStar":
+		// the wildcard is a scope, not a repository: "*", "*/*", "host/*"
+		return []string{"*", "*/*", regBase + "/*"}[int(salt)%3] + dg
 	}
 	s, ok := scopeAtom[path]
 	if !ok {
@@ -417,7 +421,7 @@ func runPolicySelect() int {
 		var in SelIn
 		must(json.Unmarshal(c.In, &in))
 		salt := mix(*flagSeed, c.ID, "render")
-		obs := SelObs{Via: "n/a"}
+		obs := SelObs{Via: "n/a", ViaSkip: "n/a"}
 		panicked, _ := guarded(func() {
 			if in.Doc.Kind == "oci" {
 				doc := concOCI(in.Doc, salt)
@@ -446,6 +450,11 @@ func runPolicySelect() int {
 				// through the verifier: the enforcement map reported in the outcome identifies the applied statement
 				v, verr := verifier.NewVerifierWithOptions(nullStore{}, verifier.VerifierOptions{OCITrustPolicy: concOCI(in.Doc, salt)})
 				must(verr)
+				if _, _, serr := v.SkipVerify(context.Background(), notationVerifyOpts(ref)); serr != nil {
+					obs.ViaSkip = "refused"
+				} else {
+					obs.ViaSkip = "answered"
+				}
 				outcome, err := v.Verify(context.Background(), presentedAny(), []byte("not a signature"), notationVerifyOpts(ref))
 				if outcome == nil {
 					obs.Via = "refused"
